@@ -149,6 +149,10 @@ func genC06(tier string) []Scenario {
 		add(batchScn{name: "positional-runs-of-different-size items=3,1,2 c=2 exec=ok|err", n: 3, nByRun: []int{3, 1, 2}, c: 2, shape: shResults, yield: true, execMenu: okOrErrMenu, bound: 0, runs: 3})
 	}
 	sizeSweep(&out, "positional", nil)
+	// ... with the concurrency switched between the runs (pooled, sequential, pooled again; …)
+	for _, cs := range [][]int{{2, 0, 2}, {0, 2, 0}, {2, 1, 2}, {1, 3, 1}} {
+		add(batchScn{name: fmt.Sprintf("positional-concurrency-switched %v over three runs n=2", cs), n: 2, c: cs[0], cByRun: cs, shape: shResults, yield: false, execMenu: okOrErrMenu, bound: 0, runs: 3})
+	}
 	// ... after a first run that ended badly: an item failed AND post failed (both modes)
 	for _, c := range []int{0, 2} {
 		for _, stop := range []bool{false, true} {
@@ -210,6 +214,12 @@ func genC07(tier string) []Scenario {
 		}
 	}
 	sizeSweep(&out, "per-item", nil)
+	// budget and concurrency re-set between three runs of one node: every run gets the budget in force
+	for _, cs := range [][]int{{2, 0, 2}, {0, 2, 0}} {
+		sc := batchScn{name: fmt.Sprintf("per-item concurrency %v and budgets 1,3,3 over three runs n=2", cs), n: 2, c: cs[0], cByRun: cs, budget: 1, budgetByRun: []int{1, 3, 3}, runs: 3, fb: true,
+			shape: shResults, execMenu: func(i, k int) []answer { return []answer{{err: itemErr(i, k)}} }, fbMenu: func(i int) []answer { return fbOkOrErr(i)[:1] }, postMenu: postX, bound: 0, chkPerItem: true}
+		out = append(out, sc.scenario())
+	}
 	// an attempt that RETURNS an error Result (nil error) has succeeded: no retry, no fallback
 	for _, c := range []int{0, 2} {
 		sc := batchScn{name: fmt.Sprintf("per-item error-results n=2 c=%d budget=2 fallback=true", c), n: 2, c: c, budget: 2, fb: true,
@@ -345,6 +355,11 @@ func genC08(tier string) []Scenario {
 				}
 			}
 		}
+	}
+	// the limit in force is the one last set: 3 workers, then 1; 1, then 3; 2, 3, 2
+	for _, cs := range [][]int{{3, 1}, {1, 3}, {2, 3, 2}} {
+		sc := batchScn{name: fmt.Sprintf("limit re-set between runs %v n=3", cs), n: 3, c: cs[0], cByRun: cs, budget: 1, shape: shResults, execMenu: okMenu, postMenu: postX, bound: 0, chkLimit: true, runs: len(cs), execDur: time.Second}
+		out = append(out, sc.scenario())
 	}
 	// a two-digit limit is a limit like any other: 9 and 10 workers, as many mutually dependent items
 	// (thorough tier only, and only the first 20 000 schedules: nine symmetric workers have 9! orders)
@@ -512,6 +527,12 @@ func genC09(tier string) []Scenario {
 		out = append(out, sc.scenario())
 	}
 	sizeSweep(&out, "stop", func(sc *batchScn) { sc.postMenu = postX })
+	// concurrency and mode re-set between runs of one node: 3 workers continue, then 1 worker stop, …
+	for _, cs := range [][]int{{3, 1}, {2, 1}, {1, 2, 1}, {2, 0}, {1, 1}} {
+		stops := []bool{false, true, true}[:len(cs)]
+		add(batchScn{name: fmt.Sprintf("stop concurrency %v, mode continue then stop, n=3 fail=0", cs), n: 3, c: cs[0], cByRun: cs, stopByRun: stops, budget: 1, yield: true, execMenu: failAtMenu(0), bound: 0, runs: len(cs)})
+		add(batchScn{name: fmt.Sprintf("stop concurrency %v (by way of another value), mode continue then stop, n=3 fail=0", cs), n: 3, c: cs[0], cByRun: cs, cDetour: true, stopByRun: stops, budget: 1, yield: true, execMenu: failAtMenu(0), bound: 0, runs: len(cs)})
+	}
 	// TWO items fail, possibly at the same moment on two workers: each of those workers has then
 	// observed a failure and starts nothing further, whichever of them "won"
 	for _, pr := range [][2]int{{0, 1}, {0, 2}, {1, 2}} {
